@@ -237,6 +237,41 @@ pub fn run(ctx: &Ctx, rep: &mut Report) {
             st = succ_a;
         }
     }
+    // every successor of the special-move families, built both by move generation and afresh from a
+    // predecessor whose caches were filled (promotions incl. under-promotions with check, castling with
+    // check, en passant)
+    let mut fam: Vec<Pos> = gen::promotion_check_family(&mut rng, ctx.n(6_000, 300_000) as usize);
+    fam.extend(gen::castle_check_family(&mut rng, ctx.n(3_000, 150_000) as usize));
+    fam.extend(gen::ep_check_family(&mut rng, ctx.n(3_000, 150_000) as usize));
+    for p in fam.iter() {
+        let st = to_state(p);
+        let _ = st.board().colored_attacks(Color::White);
+        let _ = st.board().colored_attacks(Color::Black);
+        let ms = MoveGenerator::compute_legal_moves(&st);
+        for mr in ms.moves().iter() {
+            let om = to_omove(&mr.0);
+            if om.promo.is_none() && om.castle.is_none() && !om.ep {
+                continue;
+            }
+            let Some(m) = p.legal_moves().into_iter().find(|x| *x == om) else { continue };
+            let succ = p.make(&m);
+            if to_pos(&mr.1) != succ {
+                continue;
+            }
+            if !check_object(&succ, mr.1.clone(), &mut rng, rep) {
+                return;
+            }
+            if let Ok(sb) = State::by_performing_move(&st, &mr.0) {
+                if !check_object(&succ, sb, &mut rng, rep) {
+                    return;
+                }
+            }
+            rep.count("successors_of_special_moves", 1);
+            if om.promo == Some(Kind::N) && succ.in_check(succ.wtm) {
+                rep.count("knight_promotions_giving_check", 1);
+            }
+        }
+    }
     let mut n = ctx.n(100_000, 5_000_000);
     while n > 0 && ctx.time_left() {
         let p = gen::sample(&mut rng);
